@@ -106,6 +106,12 @@ func (r *Run) Pick(q, t int) int {
 // defect, not of the individual input). A key listed in known-findings.json is printed
 // as KNOWN-FINDING once; any other key is a VIOLATION.
 func (r *Run) Violation(key, what string, replay any) {
+	// a compiler or linker that could not write its output says nothing about the code under test: the machine ran
+	// out of disk space (the Go build cache grows with every tree that is built), which is an error of the
+	// environment, reported as such and never as a verdict
+	if strings.Contains(what, "no space left on device") && (strings.Contains(what, "$WORK") || strings.Contains(what, "go-build")) {
+		Fatal("the machine ran out of disk space while building (trim the Go build cache: go clean -cache): %.300s", what)
+	}
 	r.mu.Lock()
 	defer r.mu.Unlock()
 	for _, k := range r.known {
